@@ -650,6 +650,18 @@ def run_enospc(case, prod, images, ref, docs):
         out.append(harness.disc("poisoned-open", "ENOSPC during create_cache", "a tree or an OSError", harness.exc_text(err)))
     if err is None:
         out.extend(dict(d, where=f"open that hit ENOSPC: {d['where']}") for d in harness.diff_flat(ref, harness.flatten(tree), kind="torn-cache-differs")[:3])
+        if injected:
+            # "a later successful create_cache=True repairs it": this create_cache=True open came
+            # back without an error, so the index it was asked to write has to be complete now
+            p = location_path(prod, image, "user")
+            raw = p.read_bytes() if p.is_file() else b""
+            try:
+                complete = json.loads(raw.decode("utf-8")) is not None and len(raw) >= len(docs[image].encode("utf-8")) - 2
+            except ValueError:
+                complete = False
+            if not complete:
+                out.append(harness.disc("successful-create-left-torn-cache", "open_alos2(create_cache=True) whose index write hit ENOSPC returned without an error",
+                                        "a complete index file (or an OSError)", f"{len(raw)} of {len(docs[image].encode('utf-8'))} bytes on disk"))
     out.extend(after_fault(prod, images, ref, docs, "ENOSPC during create_cache"))
     for d in out:
         d.setdefault("context", {}).update(offset=offset, length=len(docs[image]))
